@@ -359,6 +359,37 @@ Proof.
   apply Nat2N.inj in Vy. congruence.
 Qed.
 
+(* ------------------------------------------------------------------ what may move a sequence number
+   Within one key activation (the writer's key ordinal does not change over the step) a step either leaves the write
+   sequence number alone and seals nothing for that writer, or seals exactly one record that binds the old value and
+   advances it by the increment loop.  Only WActivate (sslActivateWriteCipher) sets it back to zero, and it changes the
+   key.  (WEarlyReadReset is admitted by the caller fact only under the null cipher, where the number is zero already.) *)
+Theorem exec_seq_moves : forall evs c l e, exec evs = (c, l, true) -> guard c e = true ->
+  forall s, w_key (getw (fst (step c e)) s) = w_key (getw c s) ->
+    (w_seq (getw (fst (step c e)) s) = w_seq (getw c s) /\ forall x, snd (step c e) <> Some (s, x)) \/
+    (w_seq (getw (fst (step c e)) s) = incr_seq (w_seq (getw c s)) /\
+     exists x, snd (step c e) = Some (s, x) /\ s_seq x = w_seq (getw c s) /\ s_key x = w_key (getw c s)).
+Proof.
+  intros evs c l e H G s Hk. pose proof (exec_PS evs c l true H eq_refl s) as P.
+  destruct e as [s0 we|].
+  2:{ left. cbn [step fst snd]. split; [destruct s; reflexivity | intros x Hx; discriminate]. }
+  destruct (side_dec s0 s) as [-> | Hne].
+  - rewrite step_getw_same in *. rewrite step_out. cbn [guard] in G.
+    destruct we as [a iv | rt | ok |]; cbn [wstep fst snd] in *.
+    + cbn [w_key] in Hk. exfalso. revert Hk. clear. intro Hk. induction (w_key (getw c s)); [discriminate | injection Hk; auto].
+    + destruct (w_alg (getw c s)) eqn:Ea; cbn [fst snd w_seq].
+      * left. split; [reflexivity | intros x Hx; discriminate].
+      * right. split; [reflexivity|]. eexists. split; [reflexivity|]. cbn. tauto.
+      * right. split; [reflexivity|]. eexists. split; [reflexivity|]. cbn. tauto.
+      * right. split; [reflexivity|]. eexists. split; [reflexivity|]. cbn. tauto.
+      * right. split; [reflexivity|]. eexists. split; [reflexivity|]. cbn. tauto.
+    + left. destruct ok; cbn [fst snd w_seq]; (split; [reflexivity | intros x Hx; discriminate]).
+    + left. cbn [guardw] in G. destruct (w_alg (getw c s)) eqn:Ea; try discriminate.
+      destruct (ps_null _ _ P Ea) as [_ Hz]. cbn [w_seq]. split; [now rewrite Hz | intros x Hx; discriminate].
+  - rewrite step_getw_other by exact Hne. left. split; [reflexivity|].
+    intros x Hx. rewrite step_out in Hx. destruct (snd (wstep (c_pidx c) (getw c s0) we)); [injection Hx as Hs _; congruence | discriminate].
+Qed.
+
 (* ------------------------------------------------------------------ CBC explicit IVs *)
 Definition pendl (w : wstate) : list nat := olist (w_pend w).
 Definition pends (c : cstate) : list nat := pendl (c_cl c) ++ pendl (c_sv c).
